@@ -71,8 +71,14 @@ void vr_sp(void)
 
 /* ---------------- harness pool ------------------------------------------------------------------------------ */
 static int ult_index_of_unit(ABT_unit unit) { for (int i = 0; i < NES; i++) if (unit == ULTP[i]->thread.unit) return i; return -1; }
+#ifdef VR_PUSH_HOOK
+void VR_PUSH_HOOK(void);
+#endif
 static void sp_push(ABT_pool pool, ABT_unit unit, ABT_pool_context c)
 {
+#ifdef VR_PUSH_HOOK
+    VR_PUSH_HOOK();    /* scheduling point at the start of the push: the unit is not visible yet */
+#endif
     int i = ult_index_of_unit(unit);
     __CPROVER_assert(i >= 0, "pushed unit is a known ULT");
     if (i >= 0) {
